@@ -33,6 +33,14 @@ CHECKS.update({
    text="WireLayout.tla defines the positional reference semantics of a declared layout (Pack / Unpack over bit positions, Valid = the derive macro's alignment rules, EnumDecode with Rust's numbering of implicit discriminants). TLC checks NoOverlap, RoundTrip and UndeclaredZero exhaustively for all valid layouts of up to 2-3 fields over widths {1,2,3,5,7,8,16,32,64} and skips {0,1,3,8} and draws several hundred layouts of up to 12 fields by simulation; each layout is turned into a #[derive(EtherCrabWireReadWrite)] type (with generated enums: explicit/implicit discriminants, alternatives, catch-all, default), compiled against the in-repo macro, and exercised with seeded values and buffers (pack, pack_to_slice into exact/short/long destinations, unpack_from_slice of long/exact/short arbitrary buffers, round trip); TLC (WireLayoutTrace) requires every packed image and every unpacked field to equal Pack / Unpack / EnumDecode.",
    note="Field kinds generated so far: sub-byte u8, bool, u16..u64 / i16..i64, [u8; N], u8/u16-repr enums; nested structs and the crate's own wire types are not generated yet. The TLA+ Pack/Unpack operators are the trusted reference."),
 })
+CHECKS.update({
+ "C09": dict(engine="init", section="6/C09",
+   text="InitSeq.tla specifies MainDevice::init as a protocol with a ring of abstract SubDevices (count, assign station addresses by ring position, read identities through the configured addresses - answered by every device holding that address -, group, PRE-OP). TLC explores every network of 0..4(5) devices with arbitrary prior station addresses (duplicates, collisions with 0x1000+j), DC kinds, 1-3 groups, four group filters and capacities, and proves CountExact, AddressesBasePlusIndex, Distinct, IdentityFromOwnEeprom, ExactlyOneGroup, AllPreOp, OverCapacityIsError, EmptyNetworkEmptyGroups, NoAmbiguousRead. The enumerated networks and seeded ones (up to 18 devices) are built on the simulated segment, the real init runs, and InitTrace makes each record the initial state of InitSeq: the model's final state must agree with the returned groups and the devices' registers, and the property's clauses are evaluated on the observations (names, identities, alias, DC capability, station/AL registers, order of address writes vs. first configured access).",
+   note="simdev (simulated segment, calibrated byte-exactly on two repository captures) is the trusted device model; ring positions inferred from configured addresses; empty network = frame returned unprocessed."),
+ "C10": dict(engine="alstate", section="6/C10",
+   text="AlState.tla specifies the group transition (request to every member, polling rounds split over frames, timeout) against devices following scripted AL behaviour (accept after k polls, refuse with error indication, stall, fall back). TLC proves OkImpliesAllReportedAtCheck, BadDeviceMeansError, ErrWithinTimeout, RequestToAllMembersOnly for every script vector over three group shapes (single frame, several status frames, two groups). The same script vectors run through the real into_safe_op on the simulated segment and AlStateTrace requires the model's verdict; seeded multi-stage transitions (into_op, request_into_op, into_pre_op, into_init, up to 8 devices) are judged by the monitor clauses (state after success, error within the timeout, AL control writes to members only and in the right chain), and TxRxSummaryTrace checks the per-cycle state list and its summaries against what the devices answered, including devices that do not answer.",
+   note="request_into_op is documented not to wait (only the writes are checked); fall-back cases are decided by model conformance; simdev's AL machine is the trusted device model."),
+})
 NOT_BUILT = {}
 def main():
     props = [json.loads(l) for l in open(os.path.join(V, "properties.jsonl"))]
@@ -72,6 +80,8 @@ def main():
                  kind_free_text="RxTriage.tla + RxTriageMC/Trace; harness rxtriage (prepared slot states, before/after snapshots)"),
             dict(name="wirelayout", path="checks/wirelayout.py", serves_properties=["C19"],
                  kind_free_text="WireLayout.tla + WireLayoutMC/Trace; generated crate harness/wiregen"),
+            dict(name="simdev", path="harness/simdev", serves_properties=["C09", "C10"],
+                 kind_free_text="simulated EtherCAT segment + vsim engines (init, alstate, wkc) driving the real MainDevice under a virtual clock; InitSeq/AlState specifications with trace validation"),
             dict(name="pduloop", path="checks/pduloop.py", serves_properties=[p for p in ["C01","C02","C03","C06"] if p in CHECKS],
                  kind_free_text="PduLoop.tla + PduLoopMC/Trace/Monitor; harness vsched + pduloop (token scheduler over OS threads, virtual embassy-time clock)"),
         ],
